@@ -191,3 +191,46 @@ func ZZServingGate(st int) {
 	vAssert("wal-untouched", w.appends == appends)
 	vReach("end")
 }
+
+// ZZLeaderPipeline (C08): k concurrent client writes on a serving leader (RF 1, model WAL whose
+// AppendAndSync is a schedule point, real quorum tracker, real DB). With a healthy quorum every write
+// must succeed, get a distinct offset, reach the WAL in offset order and be applied in offset order.
+func ZZLeaderPipeline(k int) {
+	w, m := zzLeaderState(1, 0)
+	lc := zzLeaderOver(w, m, 3, &zzRpc{})
+	_, err := lc.BecomeLeader(context.Background(), &proto.BecomeLeaderRequest{Term: 3, ReplicationFactor: 1})
+	vAssert("became-leader", err == nil)
+	oks := make([]int, k)
+	bads := make([]int, k)
+	ress := make([]*proto.WriteResponse, k)
+	done := make(chan int, k)
+	for i := 0; i < k; i++ {
+		i := i
+		vGo("writer", func() {
+			lc.Write(context.Background(), &proto.WriteRequest{Puts: []*proto.PutRequest{{Key: "k", Value: []byte{byte(10 + i)}}}}, zzWCb{&oks[i], &bads[i], &ress[i]})
+			done <- i
+		})
+	}
+	for i := 0; i < k; i++ {
+		<-done
+	}
+	failed := 0
+	for i := 0; i < k; i++ {
+		vAssert("callback-exactly-once", oks[i]+bads[i] == 1)
+		failed += bads[i]
+	}
+	if vKnown("KF-C08-concurrent-writers-reach-wal-out-of-order", failed > 0) {
+		vAssert("no-spurious-failure-with-healthy-quorum", failed == 0)
+	} else {
+		vAssert("no-spurious-failure-with-healthy-quorum", failed == 0)
+		vAssert("wal-contiguous", w.lastAppended == int64(k))
+		co, _ := lc.db.ReadCommitOffset()
+		vAssert("all-applied", co == int64(k))
+		gr, _ := lc.db.Get(&proto.GetRequest{Key: "k", IncludeValue: true})
+		vAssert("applied-in-offset-order-once-each", gr.Version.ModificationsCount == int64(k))
+		for i := 0; i < k; i++ {
+			vAssert("own-response", ress[i] != nil && ress[i].Puts[0].Status == proto.Status_OK)
+		}
+	}
+	vReach("end")
+}
